@@ -76,4 +76,9 @@ PROPS = {
         'theorems': ['logout_answer', 'logout_answer_shape', 'logout_only_after_removal', 'removal_erases', 'ok_requires_tokens_read', 'writes_need_prior_read', 'resurrection_logout_answered', 'resurrection_inflight_ok', 'logout_resurrection'],
         'trusted': ['hand-written interaction-tree model of the handler tied to the code by the differential run', 'oracles: jwt parsing/claims (jwx), JWS verification, SHA-256; url.Parse of the callback URI', 'schedule-level finality is NOT a theorem: the model exhibits the resurrection schedule (known finding); every interleaving of logout x one or two checks is enumerated on real goroutines and on the Sched model'],
     },
+    'C06': {
+        'theorems': ['sid_independent_of_public', 'every_id_reachable', 'draw_uniform', 'charset_distinct', 'no_prng_import', 'generator_calls_exact', 'identifier_lengths', 'charset_matches_source', 'limit_formula'],
+        'level_text': 'PARTIAL. Lean 4 theorems about information flow in the generator model (the session id depends on a stream segment nothing public depends on; no modulo bias) plus obligations over regenerated source facts (no math/rand, no clock, crypto/rand only). The unpredictability of crypto/rand itself is trusted, not proved.',
+        'trusted': ['crypto/rand is unpredictable (trusted)', 'oauth2.GenerateVerifier reads 32 bytes from crypto/rand (checked by the differential run)', 'freshness/pairwise distinctness of identifiers used by C04/C05 is a probabilistic assumption (birthday bound over 62^64 / 62^32)'],
+    },
 }
